@@ -35,6 +35,9 @@ RoundHalfUp(a, b) == (2 * a + b) \div (2 * b)
 (* TRUE iff a/b is exactly an odd multiple of 1/2 (a rounding tie)         *)
 IsHalf(a, b) == (2 * a) % b = 0 /\ ((2 * a) \div b) % 2 = 1
 
+RECURSIVE GCD(_, _)
+GCD(a, b) == IF b = 0 THEN a ELSE GCD(b, a % b)           \* a, b >= 0
+
 (* integer square roots (n >= 0), by bisection on 0..46340                 *)
 RECURSIVE ISqrtBis(_, _, _)
 ISqrtBis(n, lo, hi) ==
